@@ -252,6 +252,68 @@ def check_scale(c):
         except Exception as ex:
             got = type(ex).__name__
         res.check(got == 'ValueError', 'reject.lengths', dict(c, lens=[len(x) for x in args]), lambda: 'inconsistent lengths gave %r' % (got,))
+    # a wrong-length option in any one position, through the helper with d given and through the public maps (which pass d themselves);
+    # length 1 included for d >= 2: a one-element list is not a scalar
+    if d >= 2:
+        for pos in range(3):
+            for L in sorted({1, d - 1, d + 1}):
+                for form in ('list', 'array'):
+                    res.ev()
+                    opts = [list(a), list(b), [n] * d]
+                    opts[pos] = (opts[pos] * 2)[:L]
+                    if form == 'array':
+                        opts[pos] = np.array(opts[pos])
+                    calls = {'prep_opts': lambda: teneva.grid_prep_opts(opts[0], opts[1], opts[2], d),
+                             'ind_to_poi': lambda: teneva.ind_to_poi(I, opts[0], opts[1], opts[2], 'uni'),
+                             'poi_to_ind': lambda: teneva.poi_to_ind(I.astype(float), opts[0], opts[1], opts[2], 'cheb')}
+                    if pos < 2:
+                        calls['poi_scale'] = lambda: teneva.poi_scale(I.astype(float), opts[0], opts[1], 'uni')
+                    # scalars in the other positions too (then the wrong-length option is the FIRST list-valued one)
+                    sc = [a[0], b[0], n]
+                    o2 = [opts[j] if j == pos else sc[j] for j in range(3)]
+                    calls['ind_to_poi.scalars'] = lambda: teneva.ind_to_poi(I, o2[0], o2[1], o2[2], 'uni')
+                    for nm, fn in calls.items():
+                        try:
+                            with warnings.catch_warnings():
+                                warnings.simplefilter('ignore')
+                                fn()
+                            got = None
+                        except ValueError:
+                            got = 'ValueError'
+                        except Exception as ex:
+                            got = type(ex).__name__
+                        # the helper documents ValueError; for the public maps "rejected" is what is promised: an exception, never an answer
+                        # (poi_to_ind fails with IndexError on a one-element n on the pinned tree - rejected, though not by the helper)
+                        res.check(got == 'ValueError' or (got is not None and nm != 'prep_opts'), 'reject.lengths', dict(c, pos=pos, length=L, form=form, call=nm),
+                                  lambda: 'option %d of length %d (d = %d) through %s gave %r' % (pos, L, d, nm, got))
+    # float32-typed bounds are numbers like any others: same answers as the same values held in float64
+    for kind in ('uni', 'cheb'):
+        res.ev()
+        a32, b32 = np.array(a, dtype=np.float32), np.array(b, dtype=np.float32)
+        a64, b64 = a32.astype(np.float64), b32.astype(np.float64)
+        if np.all(b64 > a64):
+            with warnings.catch_warnings():
+                warnings.simplefilter('ignore')
+                P64 = teneva.ind_to_poi(I, a64, b64, n, kind)
+                P32 = teneva.ind_to_poi(I, a32, b32, n, kind)
+                S64 = teneva.poi_scale(P64, a64, b64, kind)
+                S32 = teneva.poi_scale(P64, a32, b32, kind)
+                J32 = teneva.poi_to_ind(P64, a32, b32, n, kind)
+            res.check(np.array_equal(P32, P64) and np.array_equal(S32, S64) and np.array_equal(J32, I) and P32.dtype == np.float64, 'forms.float32_bounds',
+                      dict(c, kind=kind), lambda: 'float32-typed bounds change the maps (max deviation %.3e)' % np.abs(np.asarray(P32, dtype=float) - P64).max())
+    # one-row batches stay batches
+    for kind in ('uni', 'cheb'):
+        res.ev()
+        with warnings.catch_warnings():
+            warnings.simplefilter('ignore')
+            Pall = teneva.ind_to_poi(I, a, b, n, kind)
+            P1 = teneva.ind_to_poi(I[-1:], a, b, n, kind)
+            P1l = teneva.ind_to_poi(I[-1:].tolist(), a, b, n, kind)
+            J1 = teneva.poi_to_ind(Pall[-1:], a, b, n, kind)
+            S1 = teneva.poi_scale(Pall[-1:], a, b, kind)
+        res.check(np.shape(P1) == (1, d) and np.shape(P1l) == (1, d) and np.shape(J1) == (1, d) and np.shape(S1) == (1, d)
+                  and np.array_equal(P1, Pall[-1:]) and np.array_equal(J1, I[-1:]), 'one_row_batch', dict(c, kind=kind),
+                  lambda: 'a batch of one row gave shapes %s %s %s %s' % (np.shape(P1), np.shape(P1l), np.shape(J1), np.shape(S1)))
     res.ev()
     try:
         teneva.grid_prep_opt(1.5, None)
